@@ -140,7 +140,11 @@ class Deduping(DNAGenerator):
 
   def _replay(self, trial_id: int, dna: DNA, reward: Any) -> None:
     del trial_id
-    self._add_dna_to_cache(dna, reward)
+    # NOTE: a DNA enters the cache as it does in a live run: when it is
+    # proposed if the wrapped generator takes no feedback, otherwise when its
+    # reward arrives (a proposal whose reward never arrived is not cached).
+    if reward is not None or not self.needs_feedback:
+      self._add_dna_to_cache(dna, reward)
 
   def _add_dna_to_cache(
       self, dna: DNA, reward: Union[None, float, Tuple[float]]) -> None:
